@@ -319,11 +319,11 @@ def run_chunks(prop_id, chunks, tier, workers, deadline, chunk_timeout=300.0, co
 
 
 # ---------------------------------------------------------------------------------------------- shrinking
-def _same(r, kind):
-    return r["outcome"] == "violation" and r["kind"] == kind
+def _same(r, kind, features=None):
+    return r["outcome"] == "violation" and r["kind"] == kind and (features is None or (r.get("features") or {}) == features)
 
 
-def shrink(prop, seed, tier, streams, kind, budget=300):
+def shrink(prop, seed, tier, streams, kind, budget=300, features=None):
     """greedy per-stream minimisation: delete spans, zero, halve.  Faults/schedule streams first, then ops, then
     workload.  Keeps a candidate only if the same violation kind recurs.  -> (streams, executions)"""
     best = {k: list(v) for k, v in streams.items()}
@@ -333,7 +333,7 @@ def shrink(prop, seed, tier, streams, kind, budget=300):
         nonlocal used
         used += 1
         r = execute(prop, seed, tier, replay=cand)
-        return _same(r, kind), r
+        return _same(r, kind, features), r
 
     order = [n for n in ("fs", "sched", "hash", "ops", "workload", "cfg") if n in best]
     order += [n for n in best if n not in order]
